@@ -75,7 +75,7 @@ class Oracles:
             # the decoder returned another action than the one the supplied
             # encoding documents: the step is judged as the documented action
             self.sim.counters.hit("decode_mismatch")
-            a = self.sim._act_of_key(tuple(want))
+            a = self.sim._act_of_key(tuple(want)) or a
         if a.kind == "exploit" and a.name in cfg.exploits:
             e = cfg.exploits[a.name]
             a = a._replace(service=e["service"], os=e["os"],
@@ -948,6 +948,8 @@ class Oracles:
             if k[0] != "exploit":
                 continue
             a = sim._act_of_key(k)
+            if a is None:
+                continue
             if 0.05 < a.prob < 0.95 and model.host_pre(cfg, st0, a) and \
                     model.net_pre(cfg, st0, a):
                 cands.append(k)
